@@ -165,6 +165,15 @@ Proof.
            order_range smul_zero pt_eqb_spec sec_len sec_head unsec_sec fuel_pos (row_net r) nd ap (table_nets_ok r Hr)).
 Qed.
 
+(* no silent wrapping: serialize (hence hwif / the text form) succeeds only when the depth fits one byte and the child number
+   four bytes -- exactly the nodes the round trip above covers -- and refuses a depth outside 0..255 *)
+Theorem C09_serialize_only_in_range : forall (nd : node) (ap : option bool) (b : bytes),
+  serialize pt sec nd ap = Ret b -> ser_ok pt nd.
+Proof. exact (serialize_ret_inv pt sec). Qed.
+Theorem C09_serialize_refuses_deep : forall (nd : node) (ap : option bool), ~ (0 <= nd_depth pt nd < 256) ->
+  serialize pt sec nd ap = Raise E_VALUE \/ serialize pt sec nd ap = Raise E_OTHER.
+Proof. exact (serialize_refuses_depth pt sec). Qed.
+
 (* text level, every row: printer and parser of every network use the same checksum function (table fact) *)
 Theorem C09_text_roundtrip : forall r (nd : node) (ap : bool),
   In r bip_prefix_table -> wf nd -> ser_ok pt nd -> (ap = true -> nd_secret pt nd <> None) ->
@@ -317,6 +326,8 @@ Print Assumptions C09_hardened_refused_on_public.
 Print Assumptions C09_metadata.
 Print Assumptions C09_table_rows_ok.
 Print Assumptions C09_serialize_roundtrip.
+Print Assumptions C09_serialize_only_in_range.
+Print Assumptions C09_serialize_refuses_deep.
 Print Assumptions C09_text_roundtrip.
 Print Assumptions C09_cache_transparent.
 Print Assumptions C09_root_calls_not_skipped.
